@@ -77,9 +77,19 @@ Rec(r) == IF HistLen > 0 THEN Append(hist, r) ELSE hist      \* HistLen = 0: exh
 Valid(n) == lease[n] > now                                  \* the lease in the DHT is taken
 Holds(i, n) == hold[i][n] = "alive" \/ (hold[i][n] = "dead" /\ hexp[i][n] > now)
 
+(* Lock(n) by instance i.  On a free (or expired) lease the call returns at once; otherwise it polls.  A second
+   caller is not admitted while somebody else is already polling for the same name: which of two polling callers
+   wins is up to the timers, a schedule could not say *)
 Request(i, n) == /\ <<i, n>> \notin req /\ hold[i][n] = "no"
-                 /\ req' = req \cup {<<i, n>>}
-                 /\ UNCHANGED <<lease, hold, hexp, now>>
+                 /\ \A j \in Inst : <<j, n>> \notin req
+                 /\ IF Valid(n)
+                    THEN /\ req' = req \cup {<<i, n>>}
+                         /\ UNCHANGED <<lease, hold, hexp>>
+                    ELSE /\ lease' = [lease EXCEPT ![n] = now + TTL]
+                         /\ hold' = [hold EXCEPT ![i][n] = "alive"]
+                         /\ hexp' = [hexp EXCEPT ![i][n] = now + TTL]
+                         /\ UNCHANGED req
+                 /\ UNCHANGED now
                  /\ hist' = Rec([a |-> "request", i |-> i, n |-> n, busy |-> Valid(n)])
 Acquire(i, n) == /\ <<i, n>> \in req /\ ~Valid(n)            \* KV.Acquire succeeds only on a free or expired lease
                  /\ req' = req \ {<<i, n>>}
